@@ -118,7 +118,8 @@ def gen_generic(draw):
     for _ in range(nf):
         pairs = draw(st.lists(st.tuples(st.integers(0, 2), st.integers(0, 2)).filter(lambda p: p[0] != p[1]),
                               min_size=0, max_size=4, unique=True))
-        funcs.append({"pairs": [list(p) for p in pairs], "factor": draw(st.integers(2, 9))})
+        funcs.append({"pairs": [list(p) for p in pairs], "factor": draw(st.integers(2, 9)),
+                      "style": draw(st.sampled_from(["func", "func", "method", "obj"]))})
     steps = []
     for _ in range(draw(st.integers(2, 14))):
         sel = draw(st.integers(0, 9))
@@ -330,9 +331,31 @@ def _run_generic(case, ctx):
             if (qty.unit, to_unit) in pairs:
                 return qty.amount * spec["factor"]
             return None
-        return conv
-    funcs = [mk(s) for s in case["funcs"]]
-    unknown = mk({"pairs": [], "factor": 1})
+        style = spec.get("style", "func")
+        if style == "func":
+            return lambda: conv
+
+        class Holder:
+            def convert(self, qty, to_unit):
+                return conv(qty, to_unit)
+
+            def __call__(self, qty, to_unit):
+                return conv(qty, to_unit)
+        h = Holder()
+        if style == "obj":
+            return lambda: h
+        # a bound method: every attribute access creates a new object that is == but not `is` the previous one;
+        # it is still "the same converter"
+        return lambda: h.convert
+    getters = [mk(s) for s in case["funcs"]]
+
+    class _Funcs:
+        def __getitem__(self, i):
+            return getters[i]()
+    funcs = _Funcs()
+    for sp in case["funcs"]:
+        ctx.label(f"style/{sp.get('style', 'func')}")
+    unknown = mk({"pairs": [], "factor": 1})()
     model = []
     removed = False
     nontriv = False
@@ -389,7 +412,7 @@ def _run_generic(case, ctx):
                 return
         got = list(G.registered_converters())
         want_l = [funcs[i] for i in reversed(model)]
-        if len(got) != len(want_l) or any(g is not w for g, w in zip(got, want_l)):
+        if len(got) != len(want_l) or any(g != w for g, w in zip(got, want_l)):
             ctx.viol("generic/list", f"{where}: registered_converters() has {len(got)} entries in an order different "
                      f"from the model {list(reversed(model))}")
             return
